@@ -181,7 +181,11 @@ static void op_alias(Ctx& c) {
   alias_impl(own, X, Y, t);
   { Eigen::Matrix<S, G::RepSize, 1> bx = X.coeffs(), by = Y.coeffs(); Eigen::Matrix<S, T::DoF, 1> bt = t.coeffs();
     Eigen::Map<G> mx(bx.data()); Eigen::Map<const G> my(by.data()); Eigen::Map<const T> mt(bt.data());
-    alias_impl(view, mx, my, mt); }
+    alias_impl(view, mx, my, mt);
+    // the compound operators with the right operand a DIFFERENT view object over the SAME buffer (X *= X through views)
+    { Eigen::Matrix<S, G::RepSize, 1> bz = X.coeffs(); Eigen::Map<G> mz(bz.data()); Eigen::Map<const G> cz(bz.data()); mz *= cz; view.add("Xview*=constview(same buffer)", mz, X.compose(X)); }
+    { Eigen::Matrix<S, G::RepSize, 1> bz = X.coeffs(); Eigen::Map<G> mz(bz.data()), mz2(bz.data()); mz *= mz2; view.add("Xview*=view(same buffer)", mz, X.compose(X)); }
+    { G Xo = X; Eigen::Map<const G> cz(Xo.data()); Xo *= cz; view.add("X*=constview(X.data())", Xo, X.compose(X)); } }
   for (int pass = 0; pass < 2; ++pass) {
     AliasLog& L = pass ? view : own;
     HEAD("alias") o.str("kind", pass ? "view" : "own"); o.vec("a", X.coeffs()); o.vec("b", Y.coeffs()); o.vec("t", t.coeffs());
